@@ -57,6 +57,7 @@ func (t *Template) Exec(ctx hctx.Context) (string, error) {
 	ev := compiler{
 		ctx:     ctx,
 		program: t.program,
+		run:     new(int),
 	}
 
 	s, err := ev.compile()
